@@ -5,6 +5,7 @@
 //  K-TF-4  encrypt_block / decrypt_block at byte level, for an ARBITRARY subkey table, with mix /
 //          inv_mix replaced by an uninterpreted function: rounds, subkey injection every 4 rounds,
 //          rotation-constant schedule, word permutation, final subkey, LE I/O == specification.
+#![recursion_limit = "1024"]
 #![allow(non_camel_case_types, unused_imports, dead_code, static_mut_refs, clippy::all)]
 #[path = "../common/nd.rs"]
 #[macro_use]
